@@ -43,6 +43,10 @@ def build_items():
     for name, arg in (('MQMIN', 1), ('MQMAX', 2), ('MQN', 2)):
         items.append(('qn', name, arg, 'a'))
         items.append(('qn', name, arg, 'ab'))
+    for inner in ('.', 'a', 'b'):   # anonymous sub-pattern holding an INNER tag + a static tag on the quantifier itself
+        for mn, mx in ((0, None), (1, None), (0, 1), (0, 2)):
+            for greedy in (True, False):
+                items.append(('qa', inner, mn, mx, greedy))
     items.append(('tag', '.'))   # M(t=...) capture of one element
     items.append(('tag', 'a'))
     items.append(('ref',))       # MTAG('t') back-reference
@@ -63,6 +67,9 @@ def item_regex(item, k):
     if kind == 'q':
         _, inner, mn, mx, greedy = item
         return '(?P<g%d>(?:%s){%d,%s}%s)' % (k, inner, mn, '' if mx is None else mx, '' if greedy else '?')
+    if kind == 'qa':
+        _, inner, mn, mx, greedy = item
+        return '(?:(?P<x%d>%s)){%d,%s}%s' % (k, inner, mn, '' if mx is None else mx, '' if greedy else '?')
     if kind == 'qc':
         _, name, greedy = item
         return '(?P<g%d>.%s%s)' % (k, {'MQSTAR': '*', 'MQPLUS': '+', 'MQOPT': '?'}[name], '' if greedy else '?')
@@ -96,6 +103,10 @@ def item_pattern(item, k, M, tagname=None):
         _, inner, mn, mx, greedy = item
         cls = M.MQ if greedy else M.MQ.NG
         return cls(min=mn, max=mx, **{'g%d' % k: inner_pat(inner)})
+    if kind == 'qa':
+        _, inner, mn, mx, greedy = item
+        cls = M.MQ if greedy else M.MQ.NG
+        return cls(M.M(**{'x%d' % k: (... if inner == '.' else inner)}), min=mn, max=mx, **{'s%d' % k: k + 100})
     if kind == 'qc':
         _, name, greedy = item
         cls = getattr(M, name)
@@ -259,6 +270,16 @@ def run_quantifiers(ctx, FST, M):
                         bad = (k, 'text', texts, span)
                         break
                     ctx.count('q_captures_compared')
+                elif it[0] == 'qa':
+                    if got.tags.get('s%d' % k) != k + 100:
+                        bad = (k, 'static-tag-of-quantifier', repr(got.tags.get('s%d' % k)), k + 100)
+                        break
+                    xv = got.tags.get('x%d' % k)
+                    if (tag_text(xv) if xv is not None else None) != want.group('x%d' % k):
+                        bad = (k, 'inner-tag(last kept iteration)', repr(xv), want.group('x%d' % k))
+                        break
+                    ctx.count('q_captures_compared')
+                    ctx.count('q_inner_and_static_tags_compared')
                 elif it[0] == 'tag':
                     tv = got.tags.get('t%d' % k)
                     if tag_text(tv) != want.group('t%d' % k):
@@ -390,7 +411,23 @@ def pattern_battery(M, rnd, root):
         ('MNOT(MNOT(Name))', lambda: M.MNOT(M.MNOT(ast.Name))), ('arguments', lambda: ast.arguments), ('MOR(MCB,MRE)', lambda: M.MOR(M.MCB(lambda n: n.is_stmt), M.MRE('x'))),
         ('Ellipsis', lambda: ...), ('MAssign(targets=[Name])', lambda: M.MAssign(targets=[ast.Name])),
         ('MCompare', lambda: M.MCompare(ops=[..., M.MQSTAR])), ('MIf(orelse=[])', lambda: M.MIf(orelse=[])),
+        # every NON-LEAF AST class, bare and wrapped: search() derives the node types to visit from the pattern
+        ('unaryop', lambda: ast.unaryop), ('operator', lambda: ast.operator), ('boolop', lambda: ast.boolop), ('cmpop', lambda: ast.cmpop), ('expr_context', lambda: ast.expr_context),
+        ('pattern', lambda: ast.pattern), ('mod', lambda: ast.mod), ('excepthandler', lambda: ast.excepthandler), ('type_param', lambda: ast.type_param), ('AST', lambda: ast.AST),
+        ('M(u=unaryop)', lambda: M.M(u=ast.unaryop)), ('MOR(Name,unaryop)', lambda: M.MOR(ast.Name, ast.unaryop)), ('MTYPES(unaryop,cmpop)', lambda: M.MTYPES((ast.unaryop, ast.cmpop))),
+        ('MAND(unaryop,MNOT(Not))', lambda: M.MAND(ast.unaryop, M.MNOT(ast.Not))), ('MOR(operator,boolop)', lambda: M.MOR(ast.operator, ast.boolop)), ('MNOT(operator)', lambda: M.MNOT(ast.operator)),
+        ('MUnaryOp(op=unaryop)', lambda: M.MUnaryOp(op=ast.unaryop)), ('MBoolOp(op=boolop)', lambda: M.MBoolOp(op=ast.boolop)), ('MCompare(ops=[cmpop,..])', lambda: M.MCompare(ops=[ast.cmpop, M.MQSTAR])),
+        ('Not', lambda: ast.Not), ('USub', lambda: ast.USub), ('And', lambda: ast.And), ('IsNot', lambda: ast.IsNot), ('Load', lambda: ast.Load), ('Store', lambda: ast.Store), ('MatchAs', lambda: ast.MatchAs),
+        ('comprehension', lambda: ast.comprehension), ('keyword', lambda: ast.keyword), ('alias', lambda: ast.alias), ('withitem', lambda: ast.withitem), ('match_case', lambda: ast.match_case),
+        ("MNOT(MName(id='self'))", lambda: M.MNOT(M.MName(id='self'))), ('MNOT(MCall(args=[]))', lambda: M.MNOT(M.MCall(args=[]))), ('MAND(Name,MNOT(MName(ctx=Load)))', lambda: M.MAND(ast.Name, M.MNOT(M.MName(ctx=ast.Load)))),
     ]
+    P += [('Load()', lambda: ast.Load()), ('Store()', lambda: ast.Store()), ('Del()', lambda: ast.Del()), ('Add()', lambda: ast.Add()), ('Not()', lambda: ast.Not()), ('And()', lambda: ast.And()),
+          ('Pass()', lambda: ast.Pass()), ("Name('self',Load())", lambda: ast.Name(id='self', ctx=ast.Load())), ("Name('x',Store())", lambda: ast.Name(id='x', ctx=ast.Store())),
+          ('MNOT(Load())', lambda: M.MNOT(ast.Load())), ("MOR(Store(),'self')", lambda: M.MOR(ast.Store(), 'self')), ('MLoad()', lambda: M.MLoad()), ('MNOT(MLoad())', lambda: M.MNOT(M.MLoad()))]
+    for nm in ('Munaryop', 'Moperator', 'Mboolop', 'Mcmpop', 'Mexpr', 'Mstmt', 'Mexpr_context', 'Mpattern'):
+        if hasattr(M, nm):
+            P.append((nm, lambda nm=nm: getattr(M, nm)))
+            P.append((nm + '()', lambda nm=nm: getattr(M, nm)()))
     # a pattern from a node of this very tree (its own AST), guaranteed to hit
     nodes = [n for n in root.walk(True) if isinstance(n.a, (ast.expr, ast.stmt))]
     if nodes:
